@@ -9,7 +9,10 @@ Driver for the holder / sensitivity-variator model (exe drv_vary).  `<op> <one J
   vary   {maps, sim, programs, vw, out, baseline, sens, level, n, vars}
                                               -> [ {sim, programs, vw, out}, ... ] | reject:kind
   hyp    [mapping, dict, n, vars]             -> 1 | 0   `vars.wf` and `varsOK` for every set i < n
-                                                         (hypotheses of vw_frame / vw_varied)
+                                                         (hypotheses of vw_frame / vw_varied / vw_described)
+  hypp   [mapping, program, n, vars, name]    -> 1 | 0   the same on the renamed copy of a program
+                                                         (hypotheses of program_copy: flatD for the
+                                                         renaming, `vars.wf`, `varsOK` on the copy)
 -/
 open LdarModel.Tree LdarModel.Json LdarModel.Holder
 
@@ -89,6 +92,16 @@ def step (_ : Unit) (op payload : String) : Unit × String :=
       match smOf m with
       | some sm =>
         let ok := vars.wf && (List.range n.toNat).all (fun i => varsOK sm n.toNat i d vars)
+        ((), if ok then "1" else "0")
+      | none => ((), "bad-op")
+    | "hypp", .list (.cons m (.cons (.obj d) (.cons (.int n) (.cons (.obj vars) (.cons (.str name) .nil))))) =>
+      match smOf m with
+      | some sm =>
+        let ok := vars.wf && (List.range n.toNat).all (fun i =>
+          flatD sm d "program_name" (.str (rename name i)) &&
+          (match alterD sm d "program_name" (.str (rename name i)) with
+            | .ok d1 => varsOK sm n.toNat i d1 vars
+            | .error _ => false))
         ((), if ok then "1" else "0")
       | none => ((), "bad-op")
     | "vary", .obj req =>
